@@ -1012,6 +1012,10 @@ struct Demo {
     ro: Value,
     #[repe(nested)]
     inner: Inner,
+    #[repe(rename = "alias")]
+    renamed: Value,
+    #[repe(skip)]
+    hidden: Value,
 }
 impl Demo {
     fn echo(&self, v: Value) -> Value {
@@ -1153,7 +1157,8 @@ fn exec_dstruct(out: &mut Out, ds: &mut DState, line: &str, w: &[&str]) -> (Stri
             let has_body = !body.is_empty();
             let want: Option<&str> = match rel {
                 "" | "/inner" | "/inner/deep" => Some(if has_body { "err 4" } else { "whole" }), // whole write of a non-object: serde rejects
-                "/a" | "/inner/x" | "/inner/deep/z" => Some("ok"),
+                "/a" | "/inner/x" | "/inner/deep/z" | "/alias" => Some("ok"),
+                "/renamed" | "/hidden" => Some("err 6"), // a renamed field answers to its alias only; a skipped field is not an endpoint
                 "/ro" => Some(if has_body { "err 4" } else { "ok" }),
                 "/echo" => Some(if has_body { "ok" } else { "err 4" }),
                 "/ping" | "/touch" => Some("ok"),
@@ -1513,7 +1518,7 @@ impl Gen {
         const PATHS: &[&str] = &[
             "", "/a", "/ro", "/inner", "/inner/x", "/inner/deep", "/inner/deep/z", "/echo", "/ping", "/touch", "/", "/a/", "/a/b", "/nope", "/inner/nope",
             "/inner/deep/z/q", "/inner//x", "/ping/x", "/a~0", "/inner~1x", "/inner/deep/z/1/2/3/4/5/6/7/8/9/10/11/12/13/14/15/16",
-            "/a", "/inner/x", "/inner/deep/z", "/echo",
+            "/a", "/inner/x", "/inner/deep/z", "/echo", "/alias", "/renamed", "/hidden",
         ];
         let lock = self.rng.below(5);
         self.push("dreset", &lock.to_string());
